@@ -15,6 +15,14 @@ Pipeline (DESIGN.md 3.5 / 4 C17):
      settled and torn down before the hook log is read (panics in spawned tasks are seen).
   5. TLC (PipelineObs.tla) evaluates the property on every real record. Only a clause TLC evaluates to FALSE is
      a VIOLATION; a real outcome class the model does not allow for the vector is DRIFT.
+
+Configurations and histories (C17 quantifies over "inputs, configurations"): the vector also carries classes of the
+pool configuration, the client builder, the transport below TLS (in memory / the real TcpTransport on loopback with
+TcpTransportConfig classes) and the history of the client (1st / 2nd / 3rd request to the origin; previous ones idle,
+in flight, closed by the peer). The full product is far too large; TLC generates (MC_Pipeline.tla) the request grammar
+at the centre of the other dimensions, every vector within NbK dimensions of five centres (all pairs of classes in
+quick, all triples in thorough) and a seeded uniform sample of the full product. A configuration class whose probe
+(child process, wall-clock limit) never returns is recorded as `stuck`: clause NoStall.
 """
 import collections
 import concurrent.futures
@@ -27,7 +35,19 @@ import vlib
 from c_tlsroute import make_certs
 
 SPELLINGS = {"quick": 2, "thorough": 3}
-VEC_FIELDS = ("ver", "method", "uri", "host", "stack", "transport", "da")
+SHARDS = {"quick": 2, "thorough": 3}          # harness processes per build
+VEC_FIELDS = ("ver", "method", "uri", "host", "stack", "transport", "da")            # the request grammar
+SC_FIELDS = ("net", "pool", "idle", "maxidle", "cap", "rto", "redir", "ct", "het", "hec", "ka", "buf", "hist")
+REQ_DIMS = ("ver", "method", "uri", "host", "stack", "transport")
+GEN_CFG = {"quick": "Pipeline_gen.cfg", "thorough": "Pipeline_gen_thorough.cfg"}
+# how a dimension is spelled in a violation key: the configuration field it stands for
+CFG_NAMES = {"net": "transport", "pool": "pool", "idle": "idle_timeout", "maxidle": "max_idle_per_host",
+             "cap": "continue_after_preemption", "rto": "request_timeout", "redir": "redirect",
+             "ct": "connect_timeout", "het": "happy_eyeballs_timeout", "hec": "happy_eyeballs_concurrency",
+             "ka": "keep_alive_timeout", "buf": "buffer_size"}
+TCP_DIMS = ("ct", "het", "hec", "ka", "buf")
+REQUEST_SITES = ("client/conn/protocol/mod.rs", "client/conn/stream/tls.rs", "service/http.rs")
+CENTRE = {}            # filled from TLC's DIMS line
 DA_CFG = ["--config", 'profile.da.inherits="release"', "--config", "profile.da.debug-assertions=true",
           "--config", "profile.da.overflow-checks=true"]
 
@@ -65,38 +85,58 @@ def run_bin(path, args, timeout):
 
 
 def vkey(v):
-    return "/".join(str(v[f]).lower() if f == "da" else v[f] for f in VEC_FIELDS)
+    k = "/".join(str(v[f]).lower() if f == "da" else v[f] for f in VEC_FIELDS)
+    sc = ",".join("%s=%s" % (f, v[f]) for f in SC_FIELDS if f in v and v[f] != CENTRE.get(f, v[f]))
+    return k + ("|" + sc if sc else "")
+
+
+def is_scenario(v):
+    return any(v.get(f, CENTRE.get(f)) != CENTRE.get(f) for f in SC_FIELDS)
 
 
 def _vectors(pid, tier, seed):
-    g = vlib.tlc("MC_Pipeline", "Pipeline_gen.cfg", pid, workers=1, timeout=900)
+    g = vlib.tlc("MC_Pipeline", GEN_CFG[tier], pid, workers=1, timeout=1700, seed=seed)
     lines = g.printed("VEC")
     pay = g.printed("PAYLOADS")
-    if not g.finished or not lines or not pay:
+    dims = g.printed("DIMS")
+    if not g.finished or not lines or not pay or not dims:
+        vlib.log(g.out[-2000:])
         raise vlib.ToolError("Pipeline_gen produced no vectors")
+    CENTRE.clear()
+    CENTRE.update(dims[0]["centre"])
     payloads = sorted(pay[0], key=lambda p: (p["hdr"], p["body"]))
     by = {}
     for x in lines:
-        e = by.setdefault(vkey(x["v"]), {"v": x["v"], "exp": set(), "expAsBuilt": set(), "stage": set(), "stageAsBuilt": set()})
+        e = by.setdefault(vkey(x["v"]), {"v": x["v"], "exp": set(), "expAsBuilt": set(), "stage": set(), "stageAsBuilt": set(),
+                                         "reuse": set()})
         e["expAsBuilt" if x["asBuilt"] else "exp"].update(x["exp"]["classes"])
         e["stageAsBuilt" if x["asBuilt"] else "stage"].add(x["exp"]["stage"])
+        if not x["asBuilt"]:
+            e["reuse"].add(x["exp"]["reuse"])
     vecs = []
     n = 0
-    for k in sorted(by):
+    # the request grammar first (ids as before), then the configuration x history vectors
+    for k in sorted(by, key=lambda k: (is_scenario(by[k]["v"]), k)):
         e = by[k]
         if not e["exp"] or not e["expAsBuilt"]:
             raise vlib.ToolError("Pipeline_gen: vector %s lacks an outcome" % k)
         n += 1
         # quick: one payload per vector, rotating with the seed (every payload class meets every stage many times);
-        # thorough: the full cross product
-        ps = payloads if tier == "thorough" else [payloads[(n + seed) % len(payloads)]]
+        # thorough: the full cross product for the request grammar, one rotating payload for the others
+        full = tier == "thorough" and not is_scenario(e["v"])
+        ps = payloads if full else [payloads[(n + seed) % len(payloads)]]
         for p in ps:
             v = dict(e["v"])
             v.update(hdr=p["hdr"], body=p["body"], id=len(vecs) + 1,
-                     exp={"classes": sorted(e["exp"]), "stage": "+".join(sorted(e["stage"]))},
+                     exp={"classes": sorted(e["exp"]), "stage": "+".join(sorted(e["stage"])), "reuse": sorted(e["reuse"])},
                      expAsBuilt={"classes": sorted(e["expAsBuilt"]), "stage": "+".join(sorted(e["stageAsBuilt"]))})
+            if is_scenario(v):
+                # the configuration x history vectors in their first (canonical) spelling: spellings belong to the
+                # request grammar; over real sockets a request the peer answers only after its 5 s body timeout
+                # (a lying content-length) would cost 5 s of wall clock each
+                v["spx"] = 0
             vecs.append(v)
-    return vecs, len(by), payloads
+    return vecs, len(by), payloads, dims[0]["dom"], g
 
 
 def _obs(pid, records_path, cfg="PipelineObs.cfg", timeout=1700):
@@ -108,8 +148,8 @@ def _obs(pid, records_path, cfg="PipelineObs.cfg", timeout=1700):
     return r
 
 
-def _violation_key(rec):
-    """Stable key of the failing input class: where it panics, in which kind of task, and the request attribute that
+def _request_key(rec):
+    """Stable key of a failing REQUEST class: where it panics, in which kind of task, and the request attribute that
     reaches that panic site (version for the protocol conversion, host form for the server name, ...)."""
     v, o = rec["v"], rec["obs"]
     f = o.get("panicFile", "?")
@@ -129,41 +169,155 @@ def _violation_key(rec):
     return "%s:%s@%s(%s):%s" % ("debug-assertions" if v["da"] else "release", attr, f, where, msg)
 
 
+def _hist_name(h):
+    if h in ("", "first"):
+        return "first"
+    parts = h.split("-")
+    return ("second-" if len(parts) == 1 else "third-") + "-".join(parts)
+
+
+def _deviation(v):
+    """(configuration items, request items) in which the vector differs from the centre, in the words of the key."""
+    cfg = ["%s:%s" % (CFG_NAMES[d], v[d]) for d in SC_FIELDS if d != "hist" and v[d] != CENTRE.get(d, v[d])]
+    req = ["%s:%s" % (d, v[d]) for d in REQ_DIMS if v[d] != CENTRE.get(d, v[d]) and not (d == "host" and v[d] == "v4" and v["net"] == "tcp")]
+    return cfg, req
+
+
+def _site(rec, clause):
+    o = rec["obs"]
+    if clause == "NoStall":
+        return "stall", "executor-thread-blocked"
+    where = o.get("panicWhere") or ("caller" if o["result"] == "panic" else "task")
+    msg = (o.get("panicMsg") or "")[:40].replace(" ", "_")
+    return "panic", "%s(%s):%s" % (o.get("panicFile", "?"), where, msg)
+
+
+def _group_violations(recs, bad):
+    """bad: [(record index (1-based), clause)]. Classes of failing vectors with stable, specific keys:
+    * a vector of the request grammar (centre of every other dimension), or a panic at one of the request
+      conversion sites: the request key (unchanged from the grammar-only check);
+    * otherwise one class per (build, clause, site, history at the first panic):
+      `<build>:<panic|stall>:cfg=<configuration classes>;history=<history>[;req=<request classes>]@<site>`, listing the
+      classes off the centre that ALL failing vectors of the class have in common (the neighbourhoods contain the
+      vectors that differ from a centre in nothing else, so the key names the classes that matter; a second defect
+      at the same site and history changes the key). The member with the fewest deviations comes first (replay)."""
+    groups = collections.OrderedDict()
+    scen = collections.OrderedDict()
+    for i, clause in bad:
+        rec = recs[i - 1]
+        v, o = rec["v"], rec["obs"]
+        f = o.get("panicFile", "")
+        if clause == "NoPanic" and (not is_scenario(v) or any(f.endswith(x) for x in REQUEST_SITES)):
+            groups.setdefault(_request_key(rec), []).append(i)
+            continue
+        kind, site = _site(rec, clause)
+        # the harness names the history at the first panic (the requests before the one during which it was raised)
+        hist = (o.get("panicHist") or _hist_name(v["hist"])) if clause == "NoPanic" else _hist_name(v["hist"])
+        cfg, req = _deviation(v)
+        scen.setdefault(("debug-assertions" if v["da"] else "release", kind, site, hist), []).append((cfg, req, i))
+    for (build, kind, site, hist), members in scen.items():
+        members.sort(key=lambda m: (len(m[0]) + len(m[1]), m[0], m[1], m[2]))
+        cfg = [x for x in members[0][0] if all(x in m[0] for m in members)]
+        req = [x for x in members[0][1] if all(x in m[1] for m in members)]
+        key = "%s:%s:cfg=%s;history=%s%s@%s" % (build, kind, "+".join(cfg) or "default", hist,
+                                              (";req=" + "+".join(req)) if req else "", site)
+        groups.setdefault(key, []).extend(m[2] for m in members)
+    return groups
+
+
 def _describe(rec):
     v, o, sp = rec["v"], rec["obs"], rec["sp"]
-    return ("%s build: %s %s %s (headers: %s; body %d bytes) through stack=%s transport=%s: panic '%s' at %s in %s "
-            "(result to the caller: %s, %d panic(s) recorded)" % (
+    cfg, _ = _deviation(v) if CENTRE else ([], [])
+    ctx = ""
+    if cfg or v.get("hist", "first") != "first":
+        ctx = " [configuration: %s; history: %s, previous requests: %s]" % (
+            ", ".join(cfg) or "default", _hist_name(v["hist"]),
+            ", ".join("%s->%s%s" % (p.get("state"), p.get("result"), ("/" + p["later"]) if p.get("later") else "") for p in o.get("prev", [])) or "none")
+    if o.get("stuck"):
+        return ("%s build: the request future never returned from a poll (probe in a child process killed after 10 s of "
+                "wall clock, twice): stack=%s transport=%s/%s%s: %s" % (
+                    "debug-assertions" if v["da"] else "release", v["stack"], v.get("net", "mem"), v["transport"], ctx, o.get("why")))
+    return ("%s build: %s %s %s (headers: %s; body %d bytes) through stack=%s transport=%s/%s%s: panic '%s' at %s in %s "
+            "(result to the caller: %s, %d panic(s) recorded%s)" % (
                 "debug-assertions" if v["da"] else "release", sp["method"], sp["uri"][:100], sp["version"], v["hdr"], sp["bodyLen"],
-                v["stack"], v["transport"], o.get("panicMsg"), o.get("panicLoc"),
-                "the caller's task" if o["result"] == "panic" else "a spawned task", o["result"], o.get("panics", 0)))
+                v["stack"], v.get("net", "mem"), v["transport"], ctx, o.get("panicMsg"), o.get("panicLoc"),
+                "the caller's task" if o["result"] == "panic" else "a spawned task or an earlier request", o["result"], o.get("panics", 0),
+                ("; first panic during request %s" % o["panicStep"]) if o.get("panicStep") not in (None, "") else ""))
+
+
+def _pair_coverage(dom, vectors):
+    """how much of the pairwise product of classes the executed vectors cover (raw pairs, before normalisation)"""
+    dims = sorted(dom)
+    seen = set()
+    for v in vectors:
+        for i, d1 in enumerate(dims):
+            for d2 in dims[i + 1:]:
+                seen.add((d1, v[d1], d2, v[d2]))
+    total = sum(len(dom[d1]) * len(dom[d2]) for i, d1 in enumerate(dims) for d2 in dims[i + 1:])
+    missing = [(d1, a, d2, b) for i, d1 in enumerate(dims) for d2 in dims[i + 1:] for a in dom[d1] for b in dom[d2]
+               if (d1, a, d2, b) not in seen]
+    return total, len(seen), missing
+
+
+def _execute(ex, pid, tier, seed, vpath, certs, rel_bin, da_bin, k, shards):
+    """4. the real code: both builds; first the probes (one configuration class off the centre, child processes under
+    a wall-clock limit), then `shards` processes per build (vector id modulo shards)"""
+    d = vlib.outdir(pid)
+    bins = (("release", rel_bin), ("da", da_bin))
+    pj = {name: ex.submit(run_bin, binp, ["probe", vpath, certs, os.path.join(d, "records-%s-probe.ndjson" % name), seed, k], 600)
+          for name, binp in bins}
+    probes = {name: j.result() for name, j in pj.items()}
+    jobs = []
+    for name, binp in bins:
+        pf = os.path.join(d, "records-%s-probe.ndjson.probe.json" % name)
+        for sh in range(shards):
+            out = os.path.join(d, "records-%s-%d.ndjson" % (name, sh))
+            jobs.append((name, out, ex.submit(run_bin, binp, ["run", vpath, certs, out, seed, k, sh, shards, pf], 2400)))
+    stats = {"release": [], "da": []}
+    paths = [os.path.join(d, "records-%s-probe.ndjson" % name) for name, _ in bins]
+    for name, out, j in jobs:
+        stats[name].append(j.result())
+        paths.append(out)
+
+    def merge(name):
+        ss, pr = stats[name], probes[name]
+        m = {"records": sum(x["records"] for x in ss) + pr["records"], "skipped": sum(x["skipped"] for x in ss),
+             "vectors": sum(x["vectors"] for x in ss), "debug_assertions": ss[0]["debug_assertions"], "probes": pr["probes"],
+             "stuck_classes": sorted("%s=%s" % (a, b) for a, b in pr["stuck"]),
+             "not_executed": sum(x.get("not_executed", 0) for x in ss), "processes": len(ss)}
+        if any(x["debug_assertions"] != m["debug_assertions"] for x in ss) or pr["debug_assertions"] != m["debug_assertions"]:
+            raise vlib.ToolError("processes of one build differ in debug assertions")
+        return m
+    return merge("release"), merge("da"), paths
 
 
 def run(pid, tier, seed, t0):
     d = vlib.outdir(pid)
     # builds in parallel: release (vlib) and release + debug assertions
-    with concurrent.futures.ThreadPoolExecutor(max_workers=3) as ex:
+    with concurrent.futures.ThreadPoolExecutor(max_workers=8) as ex:
         f_rel = ex.submit(vlib.build_harness, "pipeline")
         f_da = ex.submit(build_da)
-        # 1. the model (meanwhile)
-        m = vlib.tlc("MC_Pipeline", "Pipeline_%s.cfg" % tier, pid, workers=4, timeout=900, coverage=True)
+        # 2. as-built prediction and 3. vectors (meanwhile, one worker each)
+        f_ab = ex.submit(vlib.tlc, "MC_Pipeline", "Pipeline_asbuilt.cfg", pid, workers=1, timeout=1700, seed=seed)
+        f_vec = ex.submit(_vectors, pid, tier, seed)
+        # 1. the model
+        m = vlib.tlc("MC_Pipeline", "Pipeline_%s.cfg" % tier, pid, workers=2, timeout=1700, coverage=True, seed=seed)
         if not m.finished or m.violated:
             vlib.log(m.out[-3000:])
             raise vlib.ToolError("Pipeline.tla: the intended transcription has a panic outcome (spec error)")
         cov = m.coverage()
         never = sorted(a for a, (dist, taken) in cov.items() if taken == 0)
-        # 2. as-built prediction
-        ab = vlib.tlc("MC_Pipeline", "Pipeline_asbuilt.cfg", pid, workers=1, timeout=900)
+        vecs, nabs, payloads, dom, gen = f_vec.result()
+        ab = f_ab.result()
         pred = collections.Counter(b["stage"] for b in ab.printed("ABBAD"))
         pred_keys = {vkey(b["v"]) for b in ab.printed("ABBAD")}
         demo = None
         if tier == "thorough":
             # standing demonstration (DESIGN 2.4): TLC must refute "no panic" on the as-built transcription
-            st = vlib.tlc("MC_Pipeline", "Pipeline_asbuilt_strict.cfg", pid, workers=1, timeout=600)
+            st = vlib.tlc("MC_Pipeline", "Pipeline_asbuilt_strict.cfg", pid, workers=1, timeout=600, seed=seed)
             demo = st.violated
             if st.violated != "AsBuiltHolds":
                 raise vlib.ToolError("Pipeline_asbuilt_strict: TLC did not refute the as-built transcription")
-        # 3. vectors
-        vecs, nabs, payloads = _vectors(pid, tier, seed)
         vpath = os.path.join(d, "vectors.json")
         json.dump(vecs, open(vpath, "w"))
         certs = make_certs(pid)
@@ -171,41 +325,43 @@ def run(pid, tier, seed, t0):
         da_bin = f_da.result()
         # 4. the real code, both builds
         k = SPELLINGS[tier]
-        r1, r2 = os.path.join(d, "records-release.ndjson"), os.path.join(d, "records-da.ndjson")
-        j1 = ex.submit(run_bin, vlib.hbin("pipeline"), ["run", vpath, certs, r1, seed, k], 1500)
-        j2 = ex.submit(run_bin, da_bin, ["run", vpath, certs, r2, seed, k], 1500)
-        s1, s2 = j1.result(), j2.result()
+        s1, s2, paths = _execute(ex, pid, tier, seed, vpath, certs, vlib.hbin("pipeline"), da_bin, k, SHARDS[tier])
     if s1["debug_assertions"] or not s2["debug_assertions"]:
         raise vlib.ToolError("the two builds do not differ in debug assertions: %s %s" % (s1, s2))
     rpath = os.path.join(d, "records.ndjson")
     with open(rpath, "w") as f:
-        for p in (r1, r2):
+        for p in paths:
             f.write(open(p).read())
     recs = vlib.read_ndjson(rpath)
     nrec = len(recs)
-    if nrec != s1["records"] + s2["records"] or nrec + s1["skipped"] + s2["skipped"] != len(vecs) * k:
-        raise vlib.ToolError("harness executed %d records (+%d skipped) for %d vectors x %d" % (
-            nrec, s1["skipped"] + s2["skipped"], len(vecs), k))
+    expected = sum(1 if "spx" in v else k for v in vecs)
+    if nrec != s1["records"] + s2["records"] or nrec + s1["skipped"] + s2["skipped"] != expected:
+        raise vlib.ToolError("harness executed %d records (+%d skipped) for %d vectors (%d expected)" % (
+            nrec, s1["skipped"] + s2["skipped"], len(vecs), expected))
     # 5. the monitor
     o = _obs(pid, rpath)
     cons = [l for l in o.out.splitlines() if l.startswith('<<"CONSUMED"')]
     if not o.finished or not cons or o.distinct != nrec:
         vlib.log(o.out[-3000:])
         raise vlib.ToolError("PipelineObs did not consume the %d records (distinct=%d)" % (nrec, o.distinct))
-    bad = [b["i"] for b in o.printed("BAD")]
+    badc = [(b["i"], b["clause"]) for b in o.printed("BAD")]
+    bad = sorted({i for i, _ in badc})
     hang = [b["i"] for b in o.printed("HANG")]
     diffi = {x["i"] for x in o.printed("DIFFI")}
     diffa = {x["i"] for x in o.printed("DIFFA")}
+    diffr = {x["i"] for x in o.printed("DIFFR")}
 
     verdict = vlib.Verdict(pid)
-    groups = collections.OrderedDict()
-    for i in bad:
-        groups.setdefault(_violation_key(recs[i - 1]), []).append(i)
+    groups = _group_violations(recs, sorted(badc))
     for key, members in groups.items():
         rec = recs[members[0] - 1]
         vec = dict(rec["v"], id=rec["id"], spx=rec["spx"], exp=rec["exp"], expAsBuilt=rec["expAsBuilt"])
         verdict.violation(key, _describe(rec) + " [%d records in this class]" % len(members),
                           {"seed": seed, "vector": vec, "record": rec, "records_in_class": len(members)})
+    # extension stages (own specs, same verdict; for C17 each registers panics only)
+    call = __import__("x_tcpcall").stage(pid, tier, seed, verdict)
+    body = __import__("x_body").stage(pid, tier, seed, verdict)
+    connector = __import__("x_connector").stage(pid, tier, seed, verdict)
     code, unlisted = verdict.finish()
 
     badset = set(bad)
@@ -215,6 +371,11 @@ def run(pid, tier, seed, t0):
         vlib.log("DRIFT C17 record %d %s: %s %s %s: model allows %s (stage %s), real %s %s" % (
             i, vkey(r["v"]), r["sp"]["method"], r["sp"]["uri"][:60], r["sp"]["version"], r["exp"]["classes"], r["exp"]["stage"],
             r["obs"]["class"], (r["obs"].get("errMsg") or r["obs"].get("status"))))
+    for i in sorted(diffr)[:8]:
+        r = recs[i - 1]
+        vlib.log("DRIFT C17 (re-use) record %d %s: %s %s %s: model says re-use %s, real dialled %d for the request; previous %s" % (
+            i, vkey(r["v"]), r["sp"]["method"], r["sp"]["uri"][:60], r["sp"]["version"], r["exp"].get("reuse"), r["obs"]["dialsFinal"],
+            [(p.get("state"), p.get("result")) for p in r["obs"].get("prev", [])]))
     for i in hang[:5]:
         r = recs[i - 1]
         vlib.log("UNRESOLVED C17 record %d %s: %s %s %s hdr=%s" % (i, vkey(r["v"]), r["sp"]["method"], r["sp"]["uri"][:60],
@@ -226,32 +387,71 @@ def run(pid, tier, seed, t0):
     sample_ids = [1, nrec // 4, nrec // 2, (3 * nrec) // 4, nrec]
     samples = [{"build": recs[i - 1]["build"], "v": recs[i - 1]["v"],
                 "request": "%s %s %s" % (recs[i - 1]["sp"]["method"], recs[i - 1]["sp"]["uri"][:80], recs[i - 1]["sp"]["version"]),
-                "obs": {f: recs[i - 1]["obs"].get(f) for f in ("result", "status", "errKind", "panicLoc", "taskPanics", "conns")}}
+                "obs": {f: recs[i - 1]["obs"].get(f) for f in ("result", "status", "errKind", "panicLoc", "taskPanics", "conns", "dialsFinal", "prev")}}
                for i in sample_ids if 1 <= i <= nrec]
+    # configuration x history: what was covered
+    scen = [r for r in recs if is_scenario(r["v"])]
+    scen_vecs = {vkey(r["v"]): r["v"] for r in scen}
+    product = 1
+    for dd in dom.values():
+        product *= len(dd)
+    ptotal, pseen, pmissing = _pair_coverage(dom, [r["v"] for r in recs])
+    by_hist = collections.OrderedDict()
+    for r in scen:
+        h = by_hist.setdefault(_hist_name(r["v"]["hist"]), collections.Counter())
+        h["records"] += 1
+        h["answered_without_dialling"] += 1 if (r["obs"]["result"] == "resp" and r["obs"]["dialsFinal"] == 0) else 0
+        h["previous_still_in_flight"] += 1 if any(p.get("result") == "inflight" for p in r["obs"].get("prev", [])) else 0
+        h[r["obs"]["class"]] += 1
+    by_dim = {dd: dict(collections.Counter(r["v"][dd] for r in scen)) for dd in SC_FIELDS}
     coverage = {
+        "tcp_call_model": call, "body_model": body, "connector_model": connector,
         "states": m.distinct, "transitions": m.generated, "depth": m.depth,
         "traces_validated_against_impl": nrec,
         "samples": samples,
         "evaluations": nrec,
         "distinct_nontrivial": nontrivial,
-        "rule": "every vector of version(5) x method(5) x URI form(8) x host form(5, where the form has a host) x stack(5) x "
-                "transport(3) x build(2) from TLC, crossed with header-set(4) x body(2) payload classes (%s), %d seeded "
-                "spelling(s) each, sent through the real stacks; non-trivial = distinct concrete request that reached the "
-                "transport (a connection was dialled) or panicked" % (
-                    "all 8 per vector" if tier == "thorough" else "one per vector, rotating with the seed", k),
-        "exhaustive": len(drift_only) == 0 and not bad and tier == "thorough",
+        "rule": "request grammar: every vector of version(5) x method(5) x URI form(8) x host form(5, where the form has a host) x "
+                "stack(5) x transport(3) x build(2) from TLC at the centre of the configuration and history dimensions, crossed with "
+                "header-set(4) x body(2) payload classes (%s); configuration x history: every vector within %d dimensions of 5 centres "
+                "over 19 dimensions (request 6, net, pool, idle_timeout 5, max_idle_per_host 4, continue_after_preemption, request "
+                "timeout 4, redirect, connect / happy-eyeballs / keep-alive timeout 4 each, happy-eyeballs concurrency 5, buffer "
+                "size 3, history 13) plus a seeded uniform sample of the full product, both builds, one rotating payload, canonical spelling; "
+                "the request grammar in %d seeded spelling(s) each; all sent through the real stacks; non-trivial = distinct concrete request that reached the transport "
+                "(a connection was dialled) or panicked" % (
+                    "all 8 per vector" if tier == "thorough" else "one per vector, rotating with the seed",
+                    3 if tier == "thorough" else 2, k),
+        "exhaustive": False,
+        "exhaustive_note": "the request grammar at default configuration is enumerated completely%s; the product with configurations "
+                           "and histories (%.3g combinations per build before normalisation) is stratified and sampled" % (
+                               " with every payload" if tier == "thorough" else "", float(product)),
         "abstract_vectors": nabs, "vectors_with_payload": len(vecs), "spellings": k,
+        "configuration_history": {
+            "full_product_per_build": product, "dimensions": {dd: dom[dd] for dd in sorted(dom)},
+            "vectors": len(scen_vecs), "records": len(scen),
+            "pairs_of_classes": {"raw_total": ptotal, "covered": pseen,
+                                 "not_covered_examples": ["%s=%s,%s=%s" % x for x in pmissing[:6]],
+                                 "note": "pairs that normalisation removes (a class of a dimension that cannot influence the "
+                                         "stack, e.g. a TcpTransportConfig class without the TCP transport) are counted in raw_total"},
+            "by_history": {h: dict(c) for h, c in by_hist.items()},
+            "by_dimension": by_dim,
+            "probes": {"release": s1["probes"], "debug_assertions": s2["probes"]},
+            "stuck_classes": sorted(set(s1["stuck_classes"]) | set(s2["stuck_classes"])),
+            "not_executed_stuck_class": s1["not_executed"] + s2["not_executed"],
+            "reuse_drift": len(diffr),
+        },
         "builds": {"release": s1, "debug_assertions": s2},
         "tlc_coverage": {a: {"distinct": c[0], "taken": c[1]} for a, c in sorted(cov.items())},
         "actions_never_taken": never,
-        "monitor": {"records": nrec, "states": o.distinct, "panicking_records": len(bad), "violation_classes": len(groups),
+        "monitor": {"records": nrec, "states": o.distinct, "panicking_records": len([1 for _, c in badc if c == "NoPanic"]),
+                    "stalled_records": len([1 for _, c in badc if c == "NoStall"]), "violation_classes": len(groups),
                     "unresolved_requests": len(hang)},
         "as_built_prediction": {"vectors": len(pred_keys), "by_stage": dict(pred), "tlc_refutes_as_built_model": demo,
                                 "predicted_and_observed": len(pred_keys & bad_vecs),
                                 "predicted_not_observed": len(pred_keys - bad_vecs),
                                 "observed_not_predicted": len(bad_vecs - pred_keys)},
         "drift": {"records_outside_intended_model": len(diffi), "of_which_not_violations": len(drift_only),
-                  "records_outside_as_built_model": len(diffa),
+                  "records_outside_as_built_model": len(diffa), "connection_reuse_against_model": len(diffr),
                   "examples": [{"vector": vkey(recs[i - 1]["v"]), "request": "%s %s" % (recs[i - 1]["sp"]["method"], recs[i - 1]["sp"]["uri"][:60]),
                                 "model": recs[i - 1]["exp"], "real": recs[i - 1]["obs"]["class"]} for i in drift_only[:5]]},
         "outcome_classes": dict(classes),
@@ -260,22 +460,38 @@ def run(pid, tier, seed, t0):
     assumptions = [
         "only the enumerated request grammar (classes and their seeded spellings); header names/values and bodies are "
         "whatever the http crate accepts as well-typed",
+        "configurations and histories by classes (extreme and default values of every duration / count the pool, the client "
+        "builder and TcpTransportConfig expose; up to two previous requests); combinations: all pairs (quick) / triples "
+        "(thorough) around five centres plus a uniform sample, not the full product",
         "panics are observed through the global panic hook and catch_unwind on a single-threaded runtime that is settled "
         "and dropped per request; a panic that would only occur on a multi-threaded runtime is not seen",
-        "the in-memory transport and the hyper peer stand for the network; rustls and hyper are trusted not to hide panics "
-        "(a panic inside them is recorded like any other)",
+        "the in-memory transport (or loopback TCP) and the hyper peer stand for the network; rustls and hyper are trusted not "
+        "to hide panics (a panic inside them is recorded like any other); redirects are configured but the peer never redirects",
         "debug-assertions configuration = cargo profile inheriting release with debug-assertions and overflow-checks on for "
         "all crates",
+        "a poll that never returns is detected only for single configuration classes off the centre (probe in a child "
+        "process); in a combination it would end the run as a tool failure (watchdog), not as a verdict",
     ]
     vlib.write_evidence(pid, tier, seed, "model_checking", coverage, assumptions, time.time() - t0, unlisted)
-    vlib.log("[C17] %d abstract vectors, %d with payload x %d spellings = %d records; %d panicking records in %d classes "
-             "(%d unlisted); drift %d; unresolved %d; %s" % (nabs, len(vecs), k, nrec, len(bad), len(groups), unlisted,
-                                                              len(drift_only), len(hang), dict(classes)))
+    vlib.log("[C17] %d abstract vectors (%d configuration x history), %d with payload x %d spellings = %d records; %d failing records "
+             "in %d classes (%d unlisted); drift %d (+%d re-use); unresolved %d; pairs of classes covered %d/%d; %s" % (
+                 nabs, len(scen_vecs), len(vecs), k, nrec, len(bad), len(groups), unlisted, len(drift_only), len(diffr), len(hang),
+                 pseen, ptotal, dict(classes)))
     return code
 
 
 def replay(pid, path):
     obj = json.load(open(path))
+    _rk = obj.get("replay", {}).get("kind") if isinstance(obj.get("replay"), dict) else None
+    if _rk == "connector-trace":
+        return __import__("x_connector").replay(pid, obj)
+    if _rk == "body-ops":
+        return __import__("x_body").replay(pid, obj)
+    if _rk == "tcpcall-row":
+        _c = __import__("x_tcpcall").replay(pid, obj)
+        if _c:
+            print("VIOLATION property=%s replay=%s" % (pid, path), flush=True)
+        return _c
     rep = obj["replay"]
     d = vlib.outdir(pid)
     vec = rep["vector"]
